@@ -99,6 +99,17 @@ pub fn ln_guard(sym: &Sym, lnx0: &[f64], d: usize, nl: usize, dod: f64) -> (bool
 pub fn evaluate<const D: usize>(c: &Phys, ctx: &mut Ctx, stab: Option<f64>) -> Result<Option<Eval>, Failure> {
     let (ne, nl) = validate_opt(c, true)?;
     let g = &c.g;
+    // the properties hold for every setting of the stability test under which a sample is returned: a fifth of the
+    // cases run with the test on, tolerance 1e-6 or a tight 10^-(13..16) that refuses part of the samples
+    let hs = c.x.iter().fold(7u64, |a, v| a.wrapping_mul(1_000_003).wrapping_add(v.to_bits()));
+    let stab = stab.or_else(|| match hs % 10 {
+        3 => Some(1e-6),
+        7 => Some(10f64.powi(-13 - ((hs >> 8) % 4) as i32)),
+        _ => None,
+    });
+    if let Some(tl) = stab {
+        ctx.label(format!("stability-test:Some({tl:e})"));
+    }
     let s = match sut::build::<D>(g, c.kin.sig.clone()) {
         Ok(s) => s,
         Err(BuildErr::Rejected(_)) => {
@@ -144,9 +155,9 @@ pub fn evaluate<const D: usize>(c: &Phys, ctx: &mut Ctx, stab: Option<f64>) -> R
         ctx.label("history:earlier-call-with-other-edge-data");
         let m2: Vec<f64> = c.kin.masses.iter().map(|m| m * 1.5).collect();
         let s2: Vec<Vec<f64>> = c.kin.shifts.iter().enumerate().map(|(e, v)| if (hx >> (8 + e)) & 1 == 1 { vec![0.0; v.len()] } else { v.iter().map(|a| a * 0.5 + 0.125).collect() }).collect();
-        let _ = sut::sample_f64(&s, &c.x, sut::edge_data::<D>(&g.massive, &m2, &s2), stab, false, false);
+        let _ = sut::sample_f64(&s, &c.x, sut::edge_data::<D>(&c.mass_given(), &m2, &s2), stab, false, false);
     }
-    let ed = sut::edge_data::<D>(&g.massive, &c.kin.masses, &c.kin.shifts);
+    let ed = sut::edge_data::<D>(&c.mass_given(), &c.kin.masses, &c.kin.shifts);
     let out = match sut::sample_f64(&s, &c.x, ed, stab, true, true) {
         Ok(o) => o,
         Err(SutErr::Panic(m)) => fail!("sample-panic", "sampling panicked ({m}) on an accepted graph at a point of [0,1)^dim: {c:?}"),
@@ -250,7 +261,11 @@ pub fn to_f(v: &Q) -> f64 {
 
 pub fn classes_label(c: &Phys, ctx: &mut Ctx) {
     for cl in &c.classes {
-        ctx.label(format!("point:{cl}"));
+        if cl.starts_with("mass-given:") {
+            ctx.label("edge-data:contradicts-the-mass-flags");
+        } else {
+            ctx.label(format!("point:{cl}"));
+        }
     }
     ctx.label(format!("L={}", c.g.num_loops()));
     ctx.label(format!("D={}", c.g.d));
